@@ -271,7 +271,7 @@ def run(ctx):
     # 2. code -> spec
     d = Driver(ctx)
     rng = ctx.rng
-    nops = ctx.pick(12, 200)
+    nops = ctx.pick(16, 200)
     combos = []
     for adapter, modes in ADAPTER_MODES.items():
         for m in modes:
